@@ -36,6 +36,7 @@ func run(t *testing.T, tape *simrt.Tape) *common.Outcome {
 	dup := []int{0, 50}[g.Int(2)]
 	lats := [][]time.Duration{nil, {0, time.Millisecond, 15 * time.Millisecond}, {0, 5 * time.Millisecond, 80 * time.Millisecond, 400 * time.Millisecond}}[g.Int(3)]
 	size := []int{16, 3000, 100000}[g.Int(3)]
+	wt := g.Int(2) == 1 // the echo runs over WebTransport (HTTP/3 + webtransport-go on the same UDP port) instead of plain QUIC
 	restore := simrand.Install(uint64(drop*7 + dup*3 + size))
 	defer restore()
 	var got, via string
@@ -52,12 +53,12 @@ func run(t *testing.T, tape *simrt.Tape) *common.Outcome {
 				return simnet.UDPPass
 			})
 		}
-		a, err := simhost.New(n, simhost.Opts{Key: simhost.DetKey(1), IP: "10.0.0.1", Port: 4001, QUIC: true, WithHost: true})
+		a, err := simhost.New(n, simhost.Opts{Key: simhost.DetKey(1), IP: "10.0.0.1", Port: 4001, QUIC: true, WebTransport: wt, WithHost: true})
 		if err != nil {
 			o.Trouble = err.Error()
 			return
 		}
-		b, err := simhost.New(n, simhost.Opts{Key: simhost.DetKey(2), IP: "10.0.0.2", Port: 4001, QUIC: true, WithHost: true})
+		b, err := simhost.New(n, simhost.Opts{Key: simhost.DetKey(2), IP: "10.0.0.2", Port: 4001, QUIC: true, WebTransport: wt, WithHost: true})
 		if err != nil {
 			o.Trouble = err.Error()
 			return
@@ -66,7 +67,14 @@ func run(t *testing.T, tape *simrt.Tape) *common.Outcome {
 			io.Copy(s, s)
 			s.Close()
 		})
-		a.PS.AddAddrs(b.ID, []ma.Multiaddr{b.QAddr}, peerstore.PermanentAddrTTL)
+		target := b.QAddr
+		if wt {
+			if target = b.WTAddr(); target == nil {
+				o.Trouble = "no webtransport listen address"
+				return
+			}
+		}
+		a.PS.AddAddrs(b.ID, []ma.Multiaddr{target}, peerstore.PermanentAddrTTL)
 		ctx, cancel := context.WithTimeout(context.Background(), 60*time.Second)
 		s, err := a.Host.NewStream(ctx, b.ID, "/echo/1")
 		cancel()
@@ -104,7 +112,10 @@ func run(t *testing.T, tape *simrt.Tape) *common.Outcome {
 	}
 	o.Faults = n.UDPCounts()
 	o.Logf("drop=%d dup=%d lats=%v size=%d -> %s via %s; udp %v", drop, dup, lats, size, got, via, n.UDPCounts())
-	o.Sig = fmt.Sprintf("%d/%d/%d/%d %s %v steps=%d", drop, dup, len(lats), size, got, n.UDPCounts(), res.Steps)
+	o.Sig = fmt.Sprintf("%d/%d/%d/%d/%v %s %v steps=%d", drop, dup, len(lats), size, wt, got, n.UDPCounts(), res.Steps)
+	if wt {
+		o.Probe("webtransport-" + got[:2])
+	}
 	o.Nontrivial = got == "ok"
 	if res.Panic != "" {
 		o.Trouble = "panic: " + res.Panic
